@@ -363,10 +363,19 @@ func (p *parser) postfix() (*Expr, error) {
 				}
 				e = &Expr{Op: "slice", Args: []*Expr{e, lo, hi}}
 			} else {
+				args := []*Expr{e, lo}
+				for p.isOp(",") { // Generic[A, B]: further type arguments
+					p.i++
+					a, err := p.top()
+					if err != nil {
+						return nil, err
+					}
+					args = append(args, a)
+				}
 				if err := p.expect("]"); err != nil {
 					return nil, err
 				}
-				e = &Expr{Op: "idx", Args: []*Expr{e, lo}}
+				e = &Expr{Op: "idx", Args: args}
 			}
 		case p.isOp("(") && (e.Op == "id" || e.Op == "sel"):
 			p.i++
